@@ -1662,7 +1662,12 @@ fn configs(cli: &Cli, prop: &str) -> Vec<RunCfg> {
         v.push(mk(&[1, 1, 1, 1], false, 0, 3, Profile::General, vec![4, 8], mid_out(), false, 60_000));
     }
     if prop == "C12" || prop == "C06" {
-        v.extend(constructed_family(thorough));
+        // C12 needs the mixed free-proxy vectors of the three-chunk tables (seed S-C12-1); for C06
+        // the trimmed family is enough (S-C06-1, S-C06-2) and keeps the quick tier short
+        v.extend(constructed_family(thorough, prop == "C06"));
+    }
+    if prop == "C12" {
+        v.extend(same_host_family(thorough));
     }
     v
 }
@@ -1672,7 +1677,7 @@ fn configs(cli: &Cli, prop: &str) -> Vec<RunCfg> {
 /// the wanted hosts, then create / extend), followed by one exhaustive step (every failover,
 /// report, removal, ...).  Reaches the skewed histories a BFS from a fully registered layout
 /// cannot reach within its depth.
-fn constructed_family(thorough: bool) -> Vec<RunCfg> {
+fn constructed_family(thorough: bool, trim: bool) -> Vec<RunCfg> {
     let hosts = 3usize;
     let pairs: Vec<(usize, usize)> = vec![(0, 1), (0, 2), (1, 2)];
     let kmax = 3usize;
@@ -1712,7 +1717,7 @@ fn constructed_family(thorough: bool) -> Vec<RunCfg> {
                     continue;
                 }
                 // quick tier: three-chunk tables only with no / one free proxy on every host
-                if !thorough && chunks.len() == 3 && !(free.iter().all(|f| *f == 0) || free.iter().all(|f| *f == 1)) {
+                if trim && !thorough && chunks.len() == 3 && !(free.iter().all(|f| *f == 0) || free.iter().all(|f| *f == 1)) {
                     continue;
                 }
                 let mut used = vec![0usize; hosts];
@@ -1771,6 +1776,72 @@ fn constructed_family(thorough: bool) -> Vec<RunCfg> {
     out
 }
 
+/// Start states with a chunk whose two halves sit on ONE host - reachable only through a failover
+/// whose sole replacement candidate is on the surviving partner's host - next to k-1 ordinary
+/// two-host chunks, with free proxies on both hosts; then one exhaustive step (create a second
+/// cluster, scale out, fail over, ...).
+fn same_host_family(thorough: bool) -> Vec<RunCfg> {
+    let mut out = vec![];
+    let kmax = if thorough { 5 } else { 4 };
+    let fmax = if thorough { 3 } else { 2 };
+    for k in 1..=kmax {
+        for fa in 0..=fmax {
+            for fb in 0..=fmax {
+                if fa + fb < 2 || (!thorough && k < 3 && fa + fb > 3) {
+                    continue;
+                }
+                // host 0: k + 1 + fa proxies, host 1: k + fb (one of them fails and stays registered)
+                let layout = Layout::new(&[k + 1 + fa, k + fb]);
+                let hname = |h: usize| layout.hosts[h].0.clone();
+                let mut used = vec![0usize; 2];
+                let mut idx = 0usize;
+                let mut last_b = String::new();
+                let mut reg = |h: usize, used: &mut Vec<usize>, ops: &mut Vec<Op>| -> String {
+                    let addr = format!("{}:70{:02}", hname(h), used[h]);
+                    used[h] += 1;
+                    ops.push(Op::AddProxy { addr: addr.clone(), host: hname(h), index: idx });
+                    idx += 1;
+                    addr
+                };
+                let mut ops = vec![];
+                for i in 0..k {
+                    reg(0, &mut used, &mut ops);
+                    last_b = reg(1, &mut used, &mut ops);
+                    if i == 0 {
+                        ops.push(Op::AddCluster { name: "c1".into(), n: 4 });
+                    } else {
+                        ops.push(Op::AutoAddNodes { name: "c1".into(), n: 4 });
+                    }
+                }
+                // the only free proxy is on host 0: the replacement lands next to its partner
+                reg(0, &mut used, &mut ops);
+                ops.push(Op::Failover { addr: last_b.clone() });
+                for _ in 0..fa {
+                    reg(0, &mut used, &mut ops);
+                }
+                for _ in 0..fb {
+                    reg(1, &mut used, &mut ops);
+                }
+                out.push(RunCfg {
+                    label: format!("same-host chunk/{} chunks/free {} + {}", k, fa, fb),
+                    layout,
+                    broker: BrokerCfg { ordered: false, migration_limit: 1, failure_quorum: 1, failure_ttl: 100000 },
+                    profile: Profile::General,
+                    depth: 1,
+                    clusters: vec!["c1".into(), "c2".into()],
+                    sizes: vec![4],
+                    stale: false,
+                    init_ops: ops,
+                    register_all: false,
+                    family: Some("same-host chunk after replacement".into()),
+                    max_states: 100_000,
+                });
+            }
+        }
+    }
+    out
+}
+
 fn main() {
     let cli = Cli::parse();
     std::panic::set_hook(Box::new(|_| {}));
@@ -1805,7 +1876,10 @@ fn main() {
                 continue;
             }
         }
-        let (s, f) = run_search(&cli, cfg, &prop, hash_seeds);
+        // the one-step start-state families are cheap: sample more hash seeds there (allocator
+        // tie-breaks between hosts with equally many free proxies follow the map order)
+        let seeds_here = if cfg.family.is_some() { hash_seeds.max(if cli.thorough() { 6 } else { 4 }) } else { hash_seeds };
+        let (s, f) = run_search(&cli, cfg, &prop, seeds_here);
         if let Some(fam) = &cfg.family {
             let e = family_acc.entry(fam.clone()).or_insert((0usize, 0usize, 0usize));
             e.0 += 1;
@@ -1851,6 +1925,7 @@ fn main() {
         "exhaustive": !total.cap_hit,
         "bound": "all operation sequences up to the per-configuration depth (see configs); exhaustive=false means a state/wall cap stopped a configuration before its depth, max_depth_completed says where",
         "hash_seeds_per_transition": hash_seeds,
+        "hash_seeds_per_transition_in_start_state_families": hash_seeds.max(if cli.thorough() { 6 } else { 4 }),
         "hash_seed_new_successors": total.seed_new_successors,
         "states_where_global_epoch_is_not_the_maximum": total.imax_broken,
         "configs": per_cfg,
